@@ -510,6 +510,7 @@ theorem entities_declared (f : Fields) (hef : f.entityFeatures = true) :
     (With entities, the `entities` prefix is declared by `get_nsmap` itself: `entities_declared`.) -/
 theorem frameOK_of_tokens (f : Fields) (htok : NsTokensOK f = true)
     (hattr : f.attrib.all (attrOk (declaredPrefixes (rootAttrs f) ++ declaredPrefixes (htmlAttrs f))) = true)
+    (hinst : f.instAttrs.all (attrOk (declaredPrefixes (rootAttrs f) ++ declaredPrefixes (htmlAttrs f))) = true)
     (hname : isName f.name = true)
     (hnameQ : qnameOk (declaredPrefixes (rootAttrs f) ++ declaredPrefixes (htmlAttrs f)) f.name = true)
     (htitle : f.title.all isXmlChar = true) (hid : f.idString.all isXmlChar = true)
@@ -523,6 +524,7 @@ theorem frameOK_of_tokens (f : Fields) (htok : NsTokensOK f = true)
     (List.all_eq_true.mp hstatic) _ (by decide)
   have hroot : (rootAttrs f).all (attrOk (declaredPrefixes (rootAttrs f) ++ declaredPrefixes (htmlAttrs f))) = true := by
     apply all_rootAttrs
+    · exact hinst
     · exact hattr
     · exact attrOk_intro _ _ _ (by decide) hid (qnameOk_unprefixed _ _ "id".toList (by decide) (by decide))
     · exact attrOk_intro _ _ _ (by decide) hix (qnameOk_unprefixed _ _ "xmlns".toList (by decide) (by decide))
@@ -548,7 +550,7 @@ theorem frameOK_of_tokens (f : Fields) (htok : NsTokensOK f = true)
 example : NsTokensOK exFields = true := by decide +kernel
 -- … and `frameOK_of_tokens` applies to it
 example : FrameOK exFields = true :=
-  frameOK_of_tokens exFields (by decide +kernel) (by decide +kernel) (by decide +kernel) (by decide +kernel)
+  frameOK_of_tokens exFields (by decide +kernel) (by decide +kernel) (by decide +kernel) (by decide +kernel) (by decide +kernel)
     (by decide +kernel) (by decide +kernel) (by decide +kernel) (by decide +kernel) (by decide +kernel)
     (by decide +kernel) (by decide +kernel) (by decide +kernel) (by decide +kernel) (by decide +kernel)
     (by decide +kernel)
